@@ -116,7 +116,7 @@ func Verif_C09_IpkScripts() {
 	mt := time.Unix(1500000000, 0).UTC()
 	var body [4][]byte
 	var set [4]bool
-	nlen := v.Bound("C09.len", 2, 4) + 1
+	nlen := v.Bound("C09.len", 2, 6) + 1
 	base := v.NondetChoice("script.len", nlen)
 	for i, slot := range verifIpkSlots {
 		set[i] = v.NondetBool("has." + slot)
